@@ -237,7 +237,9 @@ pub fn end_audit(errors: &mut Vec<(&'static str, String)>) {
         let mut p = p.borrow_mut();
         errors.append(&mut p.errors);
         for b in &p.blocks {
-            if b.released == 0 {
+            // a block whose release was not announced by the probe but which the allocator has seen
+            // released is not a leak (a refactoring may have dropped the probe call)
+            if b.released == 0 && crate::alloc::is_live(b.base) != Some(false) {
                 errors.push((
                     "block-leak",
                     format!(
